@@ -31,6 +31,7 @@ from .arr import (
     dims_equal,
     mask_key,
 )
+from .core import Proxy  # noqa
 from .core import (
     SymBool,
     SymNum,
@@ -271,7 +272,35 @@ class _Random:
         return new_array((size,), lambda idx: elem(idx[0]), "f")
 
     def shuffle(self, x):
-        raise Unsupported("RandomState.shuffle")
+        """In-place shuffle of a 1-D array of CONCRETE length: x becomes x o sigma for an unspecified permutation sigma
+        (a function of the seed and the call number only)."""
+        c = ctx()
+        x = as_array(x)
+        n = concrete_value(x.shape[0]) if x.ndim == 1 else None
+        if n is None:
+            raise Unsupported("RandomState.shuffle of an array of symbolic length")
+        n = int(n)
+        call = self.calls
+        self.calls += 1
+        c.used_prelude.add("RandomState.shuffle: in-place permutation determined by (seed, call number, length)")
+        PERM = z3.Function("rand_perm_%d" % n, z3.RealSort(), z3.IntSort(), z3.IntSort(), z3.IntSort())
+        seed = to_z3(self.seed, "real")
+        sig = [SymNum(PERM(seed, z3.IntVal(call), z3.IntVal(t)), "int") for t in range(n)]
+        c.assume(and_(*[and_(s_ >= 0, s_ < n) for s_ in sig]))
+        c.assume(and_(*[sig[i] != sig[j] for i in range(n) for j in range(i + 1, n)]) if n > 1 else True)
+        old = [x.at(t) for t in range(n)]
+
+        def pick(s_):
+            r = old[-1]
+            for j in range(n - 2, -1, -1):
+                r = ite(s_ == j, old[j], r)
+            return r
+
+        new = [pick(s_) for s_ in sig]
+        for t in range(n):
+            x[t] = new[t]
+        c.ghost.setdefault("shuffle", []).append((x, sig))
+        return None
 
     def permutation(self, x):
         raise Unsupported("RandomState.permutation")
@@ -293,6 +322,23 @@ class _Broadcast:
         self.size = _prod(self.shape)
         self.nd = len(self.shape)
         self.ndim = self.nd
+
+
+class SmallUnique(Proxy):
+    """np.unique of a short array of symbolic values: only its SIZE (the number of distinct values) is modelled."""
+
+    def __init__(self, vals):
+        self.vals = vals
+        tot = 0
+        for t, v in enumerate(vals):
+            first = and_(*[vals[s_] != v for s_ in range(t)]) if t else True
+            tot = tot + ite(first, 1, 0)
+        self.size = lift(tot)
+        self.shape = (self.size,)
+        self.ndim = 1
+
+    def __len__(self):
+        raise Unsupported("len() of np.unique of symbolic values")
 
 
 class _NP:
@@ -427,6 +473,50 @@ class _NP:
         n = lift(ite(n < 0, 0, n)) if is_sym(n) else max(n, 0)
         k = "i" if kind_of(start) == "int" and kind_of(stop) == "int" else "f"
         return new_array((n,), lambda idx: lift(start + idx[0]), k)
+
+    def cumsum(self, a, axis=None, dtype=None):
+        """Running sums of a 1-D array of CONCRETE length (partial sums written out)."""
+        _use("cumsum")
+        a = as_array(a)
+        if a.ndim != 1 or axis not in (None, 0, -1):
+            raise Unsupported("cumsum of a rank-%d array" % a.ndim)
+        n = concrete_value(a.shape[0])
+        if n is None:
+            raise Unsupported("cumsum of an array of symbolic length")
+        out, tot = [], 0
+        for i in range(int(n)):
+            tot = tot + _numeric(a.at(i))
+            out.append(tot)
+        return from_list(out, a.kind if a.kind != "b" else "i")
+
+    def searchsorted(self, a, v, side="left", sorter=None):
+        """Insertion index in a sorted 1-D array of CONCRETE length: the number of entries < v (left) / <= v (right)."""
+        _use("searchsorted")
+        if sorter is not None:
+            raise Unsupported("searchsorted(sorter=)")
+        a = as_array(a)
+        m = concrete_value(a.shape[0]) if a.ndim == 1 else None
+        if m is None:
+            raise Unsupported("searchsorted in an array of symbolic length")
+        vals = [_numeric(a.at(i)) for i in range(int(m))]
+        c = ctx()
+        if not c.in_spec and len(vals) > 1:
+            c.oblige("searchsorted.sorted[%s]" % c.fresh_name("ss"), and_(*[x <= y for x, y in zip(vals, vals[1:])]), kind="domain")
+
+        def one(x):
+            x = _numeric(x)
+            tot = 0
+            for t in vals:
+                tot = tot + ite((t < x) if side == "left" else (t <= x), 1, 0)
+            return lift(tot)
+
+        if _arrish(v):
+            v = as_array(v)
+            k = concrete_value(v.shape[0]) if v.ndim == 1 else None
+            if k is None:
+                raise Unsupported("searchsorted of a symbolic number of values")
+            return from_list([one(v.at(i)) for i in range(int(k))], "i")
+        return one(v)
 
     def argsort(self, a, axis=-1, kind=None, order=None):
         """Indices that sort a 1-D array: a permutation of 0..n-1 along which the values are non-decreasing
@@ -730,10 +820,64 @@ class _NP:
             a.storage.nan = lambda sidx: and_(old_nan(sidx), not_(inv(sidx)[0]))
         return a
 
+    def isin(self, element, test_elements, assume_unique=False, invert=False):
+        """Element-wise membership. test_elements: a scalar, or a 1-D array whose length is concrete or bounded by the
+        configuration's structural bound (then written out as a finite disjunction)."""
+        _use("isin")
+        if invert:
+            raise Unsupported("isin(invert=True)")
+        el = as_array(element)
+        es = el.snapshot()
+        if not _arrish(test_elements):
+            v = _as_scalar(test_elements)
+            return new_array(el.shape, lambda idx: _numeric(es(*idx)) == _numeric(v), "b")
+        te = as_array(test_elements)
+        if te.ndim != 1:
+            raise Unsupported("isin with rank-%d test elements" % te.ndim)
+        ts = te.snapshot()
+        m = concrete_value(te.shape[0])
+        c = ctx()
+        if m is None:
+            bound = c.ghost.get("group_count_hint")
+            if bound is None:
+                raise Unsupported("isin with a symbolic number of test elements")
+            if not c.in_spec:
+                c.oblige("isin.test_elements_within_the_structural_bound[%s]" % c.fresh_name("isin"), te.shape[0] <= int(bound), kind="domain")
+            mm = te.shape[0]
+            return new_array(el.shape, lambda idx: or_(*[and_(t < mm, _numeric(es(*idx)) == _numeric(ts(t))) for t in range(int(bound))]), "b")
+        return new_array(el.shape, lambda idx: or_(*[_numeric(es(*idx)) == _numeric(ts(t)) for t in range(int(m))]) if int(m) else False, "b")
+
+    def split(self, ary, indices_or_sections, axis=0):
+        """np.split of a 1-D array at a 1-D array (or list) of split points of concrete length: consecutive slices."""
+        _use("split")
+        a = as_array(ary)
+        if a.ndim != 1 or axis != 0:
+            raise Unsupported("split of a rank-%d array" % a.ndim)
+        if not _arrish(indices_or_sections) and not isinstance(indices_or_sections, (list, tuple)):
+            raise Unsupported("split into equal sections")
+        pts = as_array(indices_or_sections)
+        k = concrete_value(pts.shape[0]) if pts.ndim == 1 else None
+        if k is None:
+            raise Unsupported("split at a symbolic number of points")
+        cuts = [pts.at(t) for t in range(int(k))]
+        out, lo = [], 0
+        for hi in cuts:
+            out.append(a[lo:hi])
+            lo = hi
+        out.append(a[lo:])
+        return out
+
     def where(self, cond, x=None, y=None):
         _use("where")
         if x is None and y is None:
-            raise Unsupported("np.where(cond) index form (handled by the index prelude)")
+            from .prelude_index import SymIndexArr, SymIndexSet
+
+            cond = as_array(cond)
+            if cond.ndim != 1:
+                raise Unsupported("np.where(cond) index form of a rank-%d array" % cond.ndim)
+            cs = cond.snapshot()
+            mem = (lambda p: cs(p)) if cond.kind == "b" else (lambda p: _numeric(cs(p)) != 0)
+            return (SymIndexArr(SymIndexSet(cond.shape[0], mem, "where")),)
         cond = as_array(cond)
         shape = broadcast_shapes([cond.shape] + [as_array(v).shape for v in (x, y) if _arrish(v)], "where")
         cg = broadcast_getter(cond, shape)
@@ -822,7 +966,11 @@ class _NP:
 
         if kw:
             raise Unsupported("np.unique with options")
-        return np_unique(as_array(a))
+        a = as_array(a)
+        n = concrete_value(a.shape[0]) if a.ndim == 1 else None
+        if n is not None and 0 < int(n) <= 6:
+            return SmallUnique([_numeric(a.at(i)) for i in range(int(n))])
+        return np_unique(a)
 
     def average(self, a, axis=None, weights=None):
         from .prelude_groupby import GroupSeries, group_reduce
